@@ -106,6 +106,63 @@ class Opaque:
         return f"<opaque {self.what}>"
 
 
+class CoroV:
+    """a compiler-generated coroutine (`async fn` / `async` block) in rustc's lowered form: the captured
+    variables, the resume-state discriminant (0 = unresumed, 1 = returned, 2 = panicked, >= 3 = suspended at
+    an await) and the locals that live across awaits, stored per state variant.  The resume function
+    is the `...::{closure#k}` body of the MIR dump; polling the coroutine executes that body."""
+
+    def __init__(self, ty, body, upvars):
+        self.ty = ty
+        self.body = body
+        self.upvars = list(upvars)
+        self.state = 0
+        self.slots = {}
+
+    def __repr__(self):
+        return f"<coroutine {self.ty[:60]} state={self.state}>"
+
+    def mir_field(self, k):
+        return self.upvars[k] if k < len(self.upvars) else None
+
+    def mir_set_field(self, k, v):
+        while len(self.upvars) <= k:
+            self.upvars.append(None)
+        self.upvars[k] = v
+        return self
+
+    def mir_downcast(self, name):
+        return CoroVariant(self, name)
+
+    def mir_discriminant(self, ctx):
+        return z3.BitVecVal(self.state, 64)
+
+    def mir_drop(self, ctx):
+        # dropping a suspended (or never resumed) coroutine drops what it holds
+        if self.state in (1, 2):
+            return
+        self.state = 1
+        vals = [v for v in self.upvars] + [v for _k, v in sorted(self.slots.items(), key=lambda kv: str(kv[0]))]
+        self.upvars, self.slots = [], {}
+        for v in vals:
+            if v is not None and not is_z3(v) and not isinstance(v, Ref):
+                ctx.drop_value(v)
+
+
+class CoroVariant:
+    """`(coroutine as variant#N)`: the saved locals of one suspension state"""
+
+    def __init__(self, coro, name):
+        self.coro, self.name = coro, name
+
+    def mir_field(self, k):
+        return self.coro.slots.get((self.name, k))
+
+    def mir_set_field(self, k, v):
+        self.coro.slots[(self.name, k)] = v
+        return self
+
+
 class FnItem:
     __slots__ = ("text",)
 
@@ -425,7 +482,8 @@ def normalize_callee(c):
         if tr is None:
             return f"<{tyn}>{meth}"
         return f"<{tyn} as {last_seg(strip_generics(tr))}>{meth}"
-    c2 = re.sub(r"<impl ([^>]*)>", lambda m: _tyname(m.group(1)), c)
+    c2 = re.sub(r"<impl \[.*\]>", "[]", c)
+    c2 = re.sub(r"<impl ([^>]*)>", lambda m: _tyname(m.group(1)), c2)
     c2 = strip_generics(c2)
     segs = c2.split("::")
     if len(segs) >= 2:
@@ -443,6 +501,8 @@ def _tyname(ty):
             ty = ty[4:]
     if ty.startswith("{closure@"):
         return "{closure}"
+    if ty.startswith("{async"):
+        return "{async}"
     if ty.startswith("["):
         return "[]"
     if ty.startswith("("):
@@ -504,7 +564,11 @@ class Ctx:
         self.solver.add(c)
         import time as _t
         _t0 = _t.time()
-        r = self.solver.check()
+        try:
+            r = self.solver.check()
+        except z3.Z3Exception:
+            # e.g. the sequence solver's "reached max unfolding": same treatment as `unknown`
+            r = z3.unknown
         if _t.time() - _t0 > 3 and os.environ.get("MIRSYM_DEBUG"):
             print(f"[slow query {(_t.time() - _t0):.1f}s -> {r}] {str(c)[:300]}", flush=True)
         smt2 = self.solver.to_smt2() if r == z3.unknown else None
@@ -582,10 +646,12 @@ class Ctx:
                 return v.mir_field(k)
             if is_z3(v) and k == 0:
                 return v  # scalar newtype (http::Version, Token, ...): transparent
+            if isinstance(v, Ref) and k == 0:
+                return v  # Pin<P> is represented by P: `pin.0` is the pointer itself
             raise Inconclusive(f"field projection .{k} on {type(v).__name__} {v!r}")
         if kind == "downcast":
-            if isinstance(v, Enum):
-                return v
+            if hasattr(v, "mir_downcast"):
+                return v.mir_downcast(step[1])
             return v
         if kind == "deref":
             if isinstance(v, Ref):
@@ -649,6 +715,9 @@ class Ctx:
             return val
         step = path[0]
         if step[0] == "downcast":
+            if hasattr(v, "mir_downcast"):
+                self._update(v.mir_downcast(step[1]), path[1:], val)
+                return v
             return self._update(v, path[1:], val)
         if step[0] in ("field", "cindex"):
             k = step[1]
@@ -790,7 +859,15 @@ class Ctx:
         if k == "array":
             return Agg("array", [self.eval_operand(frame, fn, o) for o in rv[1]])
         if k == "closure":
-            return Agg("closure:" + rv[1], [self.eval_operand(frame, fn, o) for o in rv[2]])
+            caps = [self.eval_operand(frame, fn, o) for o in rv[2]]
+            if rv[1].startswith("{coroutine@") and getattr(self, "coroutines", False):
+                mk = re.search(r"\(#(\d+)\)\}$", rv[1])
+                body = self.prog.by_name.get(f"{fn.name}::{{closure#{mk.group(1) if mk else 0}}}", [])
+                body = [b for b in body if len(b.args) == 2]
+                if len(body) >= 1 and all(b.text == body[0].text for b in body[1:]):
+                    return CoroV(rv[1], body[0], caps)
+                raise Inconclusive(f"resume function of {rv[1]} not found ({len(body)} candidates)")
+            return Agg("closure:" + rv[1], caps)
         if k == "adt_unit":
             return self.make_adt(rv[1], [], None)
         if k == "adt_tuple":
@@ -977,6 +1054,8 @@ class Ctx:
         # hyperdriver's own function?
         f = self.resolve(callee, args, caller)
         if f is not None:
+            if "::_::<impl" in f.name and f.name.endswith(">::project_replace"):
+                return self.pin_project_replace(f, args)
             return self.exec_fn(f, args)
         if key.startswith("<"):
             # `<T as Trait>::m`: fall back to the trait-level / type-level model
@@ -987,6 +1066,54 @@ class Ctx:
             self.trace.append("model " + key)
             return m(self, args, callee)
         raise Inconclusive(f"unknown callee `{callee}` (normalised `{key}`)")
+
+    def pin_project_replace(self, f, args):
+        """pin-project's generated `project_replace(self: Pin<&mut T>, replacement) -> TProjOwn`:
+        raw-pointer glue (overwrite guard, ptr::read of the unpinned fields, drop-in-place of the pinned
+        ones).  Its effect is reproduced directly: which fields are moved out is read off the generated
+        MIR (`ptr::read` of a field), the others are dropped; the place receives the replacement."""
+        ref, repl = args
+        while isinstance(ref, Ref) and isinstance(self.load(ref), Ref):
+            ref = self.load(ref)
+        old = self.load(ref)
+        text = "\n".join(f.text)
+        fld = {}  # local -> (variant or None, field index)
+        for m in re.finditer(r"(_\d+) = &mut \(\(\(\*_\d+\) as (\w+)\)\.(\d+): ", text):
+            fld[m.group(1)] = (m.group(2), int(m.group(3)))
+        for m in re.finditer(r"(_\d+) = &mut \(\(\*_\d+\)\.(\d+): ", text):
+            fld[m.group(1)] = (None, int(m.group(2)))
+        raw = {m.group(1): m.group(2) for m in re.finditer(r"(_\d+) = &raw const \(\*(_\d+)\)", text)}
+        moved = set()
+        for m in re.finditer(r"ptr::read::<[^\n]*>\(move (_\d+)\)", text):
+            src_local = raw.get(m.group(1))
+            if src_local in fld:
+                moved.add(fld[src_local])
+        rty = re.sub(r"<.*", "", f.ret.strip()).split("::")[-1] if getattr(f, "ret", None) else "ProjOwn"
+        if isinstance(old, Enum):
+            nf, dropped = [], []
+            for k, v in enumerate(old.f):
+                if (old.variant, k) in moved:
+                    nf.append(v)
+                else:
+                    nf.append(Opaque("PhantomData"))
+                    dropped.append(v)
+            out = Enum(rty, old.variant, old.idx, nf)
+        elif isinstance(old, Agg):
+            nf, dropped = [], []
+            for k, v in enumerate(old.f):
+                if (None, k) in moved:
+                    nf.append(v)
+                else:
+                    nf.append(Opaque("PhantomData"))
+                    dropped.append(v)
+            out = Agg("struct:" + rty, nf)
+        else:
+            raise Inconclusive("project_replace on " + repr(old))
+        self.store(ref, repl)
+        for v in dropped:
+            if v is not None and not is_z3(v) and not isinstance(v, Ref):
+                self.drop_value(v)
+        return out
 
     def resolve(self, callee, args, caller=None):
         c = callee.strip()
@@ -999,14 +1126,22 @@ class Ctx:
             if len(cands) == 1:
                 return cands[0]
             if len(cands) > 1:
+                # tuple-struct / variant constructors are dumped twice (runtime MIR and "MIR FOR CTFE")
+                if all(f.args == cands[0].args and f.text == cands[0].text for f in cands[1:]):
+                    return cands[0]
                 raise Inconclusive(f"ambiguous free function {plain}")
             return None
         # pin-project generated inherent impls: `module::_::<impl Type<..>>::project`
-        mpp = re.search(r"::_::<impl ([A-Za-z_][A-Za-z0-9_]*)", c)
+        mpp = re.search(r"::_::<impl ([A-Za-z_][A-Za-z0-9_:]*)", c)
         if mpp:
-            ty, meth0 = mpp.group(1), strip_generics(c).split("::")[-1]
+            ty, meth0 = mpp.group(1).split("::")[-1], strip_generics(c).split("::")[-1]
+            modpfx = c.split("::_::")[0].lstrip("<")
             cands = [f for f in self.prog.funcs if "::_::<impl at " in f.name and f.name.endswith(">::" + meth0) and len(f.args) == len(args)
                      and f.args and re.search(r"\b" + ty + r"\b", f.args[0][1])]
+            if len(cands) > 1:
+                narrowed = [f for f in cands if f.name.startswith(modpfx + "::_::")]
+                if narrowed:
+                    cands = narrowed
             if len(cands) == 1:
                 return cands[0]
             if len(cands) > 1:
@@ -1078,7 +1213,10 @@ class Ctx:
                 elif st[0] == "setdiscr":
                     ref = self.eval_place_ref(frame, st[1])
                     v = self.load(ref)
-                    raise Inconclusive("SetDiscriminant")
+                    if isinstance(v, CoroV):
+                        v.state = st[2]
+                    else:
+                        raise Inconclusive("SetDiscriminant")
             k = term[0]
             if k == "goto":
                 bb = term[1]
